@@ -182,7 +182,7 @@ func (vc *FuncVC) typeInv(v Term, t types.Type) Term {
 		cp := T(app("s_cap", v), SInt)
 		arr := T(app("s_arr", v), SInt)
 		return And(Cmp("<=", IntLit(0), off), Cmp("<=", IntLit(0), ln), Cmp("<=", ln, cp),
-			Cmp("<=", cp, T("4611686018427387904", SInt)),
+			Cmp("<=", cp, T("72057594037927936", SInt)),
 			Implies(Eq(arr, IntLit(0)), And(Eq(cp, IntLit(0)), Eq(off, IntLit(0)))),
 			Cmp("<=", IntLit(0), arr))
 	case *types.Pointer, *types.Map, *types.Chan, *types.Signature:
@@ -215,7 +215,7 @@ func (vc *FuncVC) prelude() string {
 (declare-fun tagOf (Iface) Int)
 (declare-datatypes ((Slice 0)) (((mk_slice (s_arr Int) (s_off Int) (s_len Int) (s_cap Int)))))
 (define-fun nil_slice () Slice (mk_slice 0 0 0 0))
-(assert (forall ((s Str)) (! (and (>= (len s) 0) (<= (len s) 4611686018427387904)) :pattern ((len s)))))
+(assert (forall ((s Str)) (! (and (>= (len s) 0) (<= (len s) 72057594037927936)) :pattern ((len s)))))
 (assert (forall ((s Str) (i Int)) (! (and (<= 0 (at s i)) (< (at s i) 256)) :pattern ((at s i)))))
 (assert (forall ((s Str) (a Int) (b Int)) (! (=> (and (<= 0 a) (<= a b) (<= b (len s))) (= (len (sub s a b)) (- b a))) :pattern ((sub s a b)))))
 (assert (forall ((s Str) (a Int) (b Int) (k Int)) (! (=> (and (<= 0 a) (<= a b) (<= b (len s)) (<= 0 k) (< k (- b a))) (= (at (sub s a b) k) (at s (+ a k)))) :pattern ((at (sub s a b) k)))))
@@ -256,7 +256,18 @@ func (vc *FuncVC) prelude() string {
 		b.WriteString(d)
 		b.WriteByte('\n')
 	}
+	vc.preDeclsEmitted = len(vc.preDecls)
 	for _, d := range vc.axiomText {
+		b.WriteString(d)
+		b.WriteByte('\n')
+	}
+	facts := vc.implementsFacts()
+	// (implementsFacts may declare `implements`: emit declarations added meanwhile)
+	for _, d := range vc.preDecls[min(len(vc.preDecls), vc.preDeclsEmitted):] {
+		b.WriteString(d)
+		b.WriteByte('\n')
+	}
+	for _, d := range facts {
 		b.WriteString(d)
 		b.WriteByte('\n')
 	}
